@@ -11,7 +11,11 @@
 EXTENDS Integers, Sequences, FiniteSets, TLC, Json
 
 CONSTANTS MaxLen,      \* sort machine: inputs of length 0..MaxLen over the whole family
-          SubLen       \* ... and of length 0..SubLen over the first 6 elements of a family
+          SubLen,      \* ... and of length 0..SubLen over the first 6 elements of a family
+          NoNsFirst    \* the property orders namespaced names "by namespace and then name" and is silent on
+                       \* where names WITHOUT a namespace go: TRUE = before all namespaced ones (Clojure, and the
+                       \* implementation), FALSE = after them (what the docstring of compare says).  TLC checks the
+                       \* order laws for both; the driver uses the convention the implementation exhibits.
 
 Nil == [ty |-> "nil"]
 Num(k, n, d) == [ty |-> "num", k |-> k, n |-> n, d |-> d]
@@ -70,8 +74,8 @@ LexCmp(s, t) == IF s = <<>> THEN (IF t = <<>> THEN 0 ELSE -1)
 CmpNum(x, y) == Sign(x.n * y.d - y.n * x.d)
 
 CmpName(x, y) == IF x.ns = <<>> /\ y.ns = <<>> THEN LexCmp(x.nm, y.nm)
-                 ELSE IF x.ns = <<>> THEN -1
-                 ELSE IF y.ns = <<>> THEN 1
+                 ELSE IF x.ns = <<>> THEN (IF NoNsFirst THEN -1 ELSE 1)
+                 ELSE IF y.ns = <<>> THEN (IF NoNsFirst THEN 1 ELSE -1)
                  ELSE IF LexCmp(x.ns, y.ns) # 0 THEN LexCmp(x.ns, y.ns)
                  ELSE LexCmp(x.nm, y.nm)
 
